@@ -190,6 +190,96 @@ for f in sorted((dst / "src").rglob("*.py")):
                         if a.arg in ps:
                             a.arg = a.arg + "_pv"
                     n_params += len(ps)
+    if mode == "ifswap":
+        # `if A: X else: Y`  ->  `if not A: Y else: X`  (no elif chain on either side; inside functions only)
+        class Swap(ast.NodeTransformer):
+            def visit_If(self, n):
+                self.generic_visit(n)
+                if n.orelse and not (len(n.orelse) == 1 and isinstance(n.orelse[0], ast.If)):
+                    global n_names
+                    n_names += 1
+                    t = n.test.operand if isinstance(n.test, ast.UnaryOp) and isinstance(n.test.op, ast.Not) else ast.UnaryOp(op=ast.Not(), operand=n.test)
+                    return ast.If(test=t, body=n.orelse, orelse=n.body)
+                return n
+        for fn in top_functions(tree):
+            Swap().visit(fn)
+        ast.fix_missing_locations(tree)
+    if mode in ("elsewrap", "unelse", "andsplit"):
+        def exits(body):
+            return bool(body) and isinstance(body[-1], (ast.Return, ast.Raise, ast.Continue, ast.Break))
+
+        def blocks(node):
+            out = []
+
+            def rec(stmts):
+                out.append(stmts)
+                for st in stmts:
+                    if isinstance(st, (ast.FunctionDef, ast.AsyncFunctionDef, ast.ClassDef)):
+                        continue
+                    for field in ("body", "orelse", "finalbody"):
+                        sub = getattr(st, field, None)
+                        if isinstance(sub, list) and sub and isinstance(sub[0], ast.stmt):
+                            rec(sub)
+                    if isinstance(st, ast.Try):
+                        for h in st.handlers:
+                            rec(h.body)
+                    if isinstance(st, ast.Match):
+                        for c in st.cases:
+                            rec(c.body)
+
+            rec(node.body)
+            return out
+
+        for fn in top_functions(tree):
+            changed = True
+            while changed:
+                changed = False
+                for stmts in blocks(fn):
+                    for i, st in enumerate(stmts):
+                        if mode == "elsewrap" and isinstance(st, ast.If) and not st.orelse and exits(st.body) and i + 1 < len(stmts):
+                            # `if c: ...return` + rest  ->  `if c: ...return else: rest`
+                            st.orelse = stmts[i + 1:]
+                            del stmts[i + 1:]
+                            n_names += 1
+                            changed = True
+                            break
+                        if mode == "unelse" and isinstance(st, ast.If) and st.orelse and exits(st.body) and not (len(st.orelse) == 1 and isinstance(st.orelse[0], ast.If)):
+                            # `if c: ...return else: rest`  ->  `if c: ...return` + rest
+                            rest = st.orelse
+                            st.orelse = []
+                            stmts[i + 1:i + 1] = rest
+                            n_names += 1
+                            changed = True
+                            break
+                        if mode == "andsplit" and isinstance(st, ast.If) and not st.orelse and isinstance(st.test, ast.BoolOp) and isinstance(st.test.op, ast.And):
+                            # `if a and b: X`  ->  `if a: if b: X`
+                            first, others = st.test.values[0], st.test.values[1:]
+                            inner = ast.If(test=others[0] if len(others) == 1 else ast.BoolOp(op=ast.And(), values=others), body=st.body, orelse=[])
+                            st.test, st.body = first, [inner]
+                            n_names += 1
+                            changed = True
+                            break
+                    if changed:
+                        break
+        ast.fix_missing_locations(tree)
+    if mode == "rettemp":
+        # `return E`  ->  `result_rt = E; return result_rt`   (E not a bare name / constant)
+        class Ret(ast.NodeTransformer):
+            def visit_FunctionDef(self, n):
+                return n  # nested functions left alone (handled when they are top functions of a class)
+            visit_AsyncFunctionDef = visit_Lambda = visit_FunctionDef
+
+            def visit_Return(self, n):
+                global n_names
+                if n.value is None or isinstance(n.value, (ast.Name, ast.Constant)):
+                    return n
+                n_names += 1
+                return [ast.Assign(targets=[ast.Name(id="result_rt", ctx=ast.Store())], value=n.value, lineno=n.lineno), ast.Return(value=ast.Name(id="result_rt", ctx=ast.Load()))]
+        for fn in top_functions(tree):
+            if any(isinstance(x, (ast.Yield, ast.YieldFrom)) for x in ast.walk(fn)):
+                continue
+            fn.body = [y for st in fn.body for y in (lambda r: r if isinstance(r, list) else [r])(Ret().visit(st))]
+        ast.fix_missing_locations(tree)
     new = ast.unparse(tree) + "\n"
     f.write_text(new)
     n_files += 1
